@@ -5,50 +5,16 @@ import ShVerif.Proofs.C26l
 namespace ShVerif.C26
 open ShVerif.L5 ShVerif.L5.Bash
 
-/-- What the (stopped) `for` loop of the runner leaves alone while it spins through the
-    remaining items. -/
-structure SameX (s s' : St) : Prop where
-  ex : s'.exit = s.exit
-  out : s'.out = s.out
-  cex : s'.callbackExit = s.callbackExit
-  cer : s'.callbackErr = s.callbackErr
-  ht : s'.handlingTrap = s.handlingTrap
-  bk : s'.breakEnclosing = s.breakEnclosing
-  ct : s'.contnEnclosing = s.contnEnclosing
-
-theorem SameX.refl (s : St) : SameX s s := ⟨rfl, rfl, rfl, rfl, rfl, rfl, rfl⟩
-
-theorem SameX.trans {a b c : St} (h1 : SameX a b) (h2 : SameX b c) : SameX a c :=
-  ⟨h2.ex.trans h1.ex, h2.out.trans h1.out, h2.cex.trans h1.cex, h2.cer.trans h1.cer,
-    h2.ht.trans h1.ht, h2.bk.trans h1.bk, h2.ct.trans h1.ct⟩
-
-theorem SameX.stop {s s' : St} (h : SameX s s') : stop s' = stop s := by
-  unfold L5.stop; rw [h.ex, h.ht]
-
-theorem forLoop_stopped {n : Nat} (hn : 1 ≤ n) (x : Str) (b : Prog) :
-    ∀ (items : List Str) (s : St), stop s = true → NoPending s →
-      ∃ s', forLoop (fun st => run n (.stmt st)) x b items s = some s' ∧ SameX s s'
-  | [], s, _, _ => ⟨s, rfl, SameX.refl s⟩
-  | it :: rest, s, hs, hp => by
-    have hs1 : stop { s with vars := (x, it) :: s.vars } = true := hs
-    have hp1 : NoPending { s with vars := (x, it) :: s.vars } := hp
-    rw [forLoop, loopStmtsBroken_stopped hn b _ hs1 hp1]
-    simp only [Bool.false_eq_true, ↓reduceIte]
-    obtain ⟨s', h1, h2⟩ := forLoop_stopped hn x b rest _ hs1 hp1
-    have h0 : SameX s { s with vars := (x, it) :: s.vars } := ⟨rfl, rfl, rfl, rfl, rfl, rfl, rfl⟩
-    exact ⟨s', h1, h0.trans h2⟩
-
-theorem Post.exit_congr {K : SCtx} {k : Ctx} {sub : Bool} {le q : Prop} {s0 s s' : St} {e : Env}
-    (h : Post K k sub le q s0 s .exit e) (hx : SameX s s') : Post K k sub le q s0 s' .exit e := by
-  obtain ⟨h1, h2, h3, h4, h5, h6, h7, h8, h9⟩ := h
-  refine ⟨by rw [hx.ex]; exact h1, by rw [hx.ex]; exact h2, by rw [hx.ex]; exact h3,
-    by rw [hx.out]; exact h4, by rw [hx.cex]; exact h5, ⟨fun hs => by rw [hx.cex]; exact h6.1 hs, by rw [hx.cex]; exact h6.2⟩,
-    by rw [hx.ht]; exact h7, by rw [hx.cer]; exact h8, ?_⟩
-  exact ⟨by rw [hx.bk]; exact h9.1, by rw [hx.ct]; exact h9.2⟩
+/-- A stopped runner leaves the `for` loop at its next `stop()` check. -/
+theorem forLoop_stopped (f : Stmt → St → Option St) (x : Str) (b : Prog) (items : List Str) (s : St)
+    (hs : stop s = true) : forLoop f x b items s = some s := by
+  cases items with
+  | nil => rfl
+  | cons it rest => rw [forLoop]; simp only [hs, ↓reduceIte]
 
 theorem sim_forLoop {n : Nat} (hS : SimS n) {K : SCtx} {k : Ctx} {sub : Bool} (x : Str) (b : Prog)
     (w : Prop) (hst : Stat K k sub) (hb0 : b.isNil = false)
-    (hsb : supBody (bodyK K true) b = true) (hwb : w → tailOk b = true) :
+    (hsb : supBody (bodyK K) b = true) (hwb : w → tailOk b = true) :
     ∀ (items : List Str) (s : St), Dyn K k sub s → LastOk s → NoFlags s → NoPending s →
       (items = [] → s.lastExit = s.exit ∧ (w → Quiet s)) →
       Rel (Post K k sub False w s)
@@ -60,13 +26,13 @@ theorem sim_forLoop {n : Nat} (hS : SimS n) {K : SCtx} {k : Ctx} {sub : Bool} (x
     refine ⟨?_, hd, ⟨rfl, rfl, rfl⟩, hnf, hnp, fun h => h.elim, hq⟩
     simp [absEnv, absEnvC, hle]
   | it :: rest, s, hd, hl, hnf, hnp, _ => by
-    rw [forLoop, forItems]
+    rw [forLoop, forItems, if_neg (by rw [not_stop hnf]; simp)]
     have hae : ({ absEnv s with vars := (x, it) :: (absEnv s).vars } : Env) =
         absEnv { s with vars := (x, it) :: s.vars } := rfl
     rw [hae]
     have hd1 : Dyn K k sub { s with vars := (x, it) :: s.vars } :=
       hd.congr rfl rfl rfl rfl rfl rfl rfl rfl
-    have hit := sim_iter hS False w true b { s with vars := (x, it) :: s.vars } hst hb0 hsb
+    have hit := sim_iter hS False w b { s with vars := (x, it) :: s.vars } hst hb0 hsb
       (fun h => h.elim) hwb hd1 hl hnf hnp
     have hf1 : Frame s { s with vars := (x, it) :: s.vars } := ⟨rfl, rfl, rfl⟩
     cases hlb : loopStmtsBroken (fun st => run n (.stmt st)) b { s with vars := (x, it) :: s.vars } with
@@ -93,7 +59,7 @@ theorem sim_forLoop {n : Nat} (hS : SimS n) {K : SCtx} {k : Ctx} {sub : Bool} (x
             | nil => simp [Prog.isNil] at hb0
             | cons st r => simp [seqList, sem] at hsb2
           | succ m => omega
-        rcases hit with ⟨hab, hbr, hd4, hf4, hl4, hnf4, hnp4, he2, _, hle4, _, hw4⟩ | ⟨hab, hpo, hbs, hnr⟩
+        rcases hit with ⟨hab, hbr, hd4, hf4, hl4, hnf4, hnp4, he2, _, hle4, _, hw4⟩ | ⟨hab, hpo, hbs⟩
         · subst hbr
           have hab' : afterBody fl2 = (false, (afterBody fl2).2) := by rw [← hab]
           rw [hab']
@@ -114,29 +80,7 @@ theorem sim_forLoop {n : Nat} (hS : SimS n) {K : SCtx} {k : Ctx} {sub : Bool} (x
               rcases hbs with h | h
               · cases h
               · exact h
-            -- only `exit` stops the runner here (`return` cannot come out of a `for` body)
-            have hfl : (afterBody fl2).2 = .exit := by
-              cases fl2 with
-              | norm => simp [afterBody] at hab
-              | ret => exact absurd rfl (hnr rfl)
-              | exit => rfl
-              | brk m =>
-                exfalso
-                have : NoFlags s4 := by
-                  rcases m with _ | _ | m <;> simp only [afterBody] at hpo <;> first | exact hpo.2.2.2.1
-                rw [not_stop this] at hs4; cases hs4
-              | cont m =>
-                exfalso
-                rcases m with _ | _ | m
-                · simp [afterBody] at hab
-                · simp [afterBody] at hab
-                · simp only [afterBody] at hpo
-                  have : NoFlags s4 := hpo.2.2.2.1
-                  rw [not_stop this] at hs4; cases hs4
-            rw [hfl] at hpo'
-            have hnp4 : NoPending s4 := hpo'.2.2.2.2.2.2.2.2
-            obtain ⟨s', hrun, hsx⟩ := forLoop_stopped hn1 x b rest s4 hs4 hnp4
-            rw [hrun, hfl]
-            exact hpo'.exit_congr hsx
+            rw [forLoop_stopped _ x b rest s4 hs4]
+            exact hpo'
 
 end ShVerif.C26
